@@ -1,2 +1,34 @@
-(** C15 - placeholder *)
-From VG Require Import Model.Pool.
+(** C15 - The outcome of an RPC is independent of earlier traffic.
+    Statements only; proofs in Proofs/PoolProofs.v.
+
+    In the model an RPC's outcome is a function of the configuration, the request and the
+    backend's behaviour ([serve_head], [serve_response], the reader functions take nothing
+    else).  The only state a Transcoder carries from one RPC to the next are its pools; what the
+    theorems say is that nothing of a pooled buffer's past is visible to its next user, whatever
+    the history.  That the code has no other carried state is what the history suite checks. *)
+From VG Require Import Model.Bytes Model.Pool Gen.Generated.
+From VG Require Import Proofs.PoolProofs.
+Open Scope Z_scope.
+
+Theorem C15_pooled_buffers_come_back_empty : forall pick ops idle,
+  Forall (fun b => pb_data b = []) (snd (pool_history pick ops idle [])).
+Proof. intros. apply history_gets_empty. constructor. Qed.
+Print Assumptions C15_pooled_buffers_come_back_empty.
+
+Theorem C15_oversized_buffers_dropped : forall idle b,
+  max_recycle_buffer_size < pb_cap b -> pool_put idle b = idle.
+Proof. exact oversized_not_retained. Qed.
+Print Assumptions C15_oversized_buffers_dropped.
+
+Theorem C15_pool_stays_bounded : forall ops pick idle got,
+  Forall (fun b => pb_cap b <= max_recycle_buffer_size) idle ->
+  (forall l b rest, pick l = Some (b, rest) -> forall x, In x rest -> In x l) ->
+  Forall (fun b => pb_cap b <= max_recycle_buffer_size) (fst (pool_history pick ops idle got)).
+Proof. exact retained_are_bounded. Qed.
+Print Assumptions C15_pool_stays_bounded.
+
+Example C15_ex :
+  map pb_data (snd (pool_history (fun l => match l with b :: r => Some (b, r) | [] => None end)
+                      [CPut (mkPbuf 1 600 (s2b "secret of an earlier request")); CGet 2; CGet 3] [] []))
+  = [[]; []].
+Proof. reflexivity. Qed.
